@@ -1876,9 +1876,14 @@ fn check_loc(font: &[u8], user: &[i32], loc: &[i16], rec: &mut Rec) -> CaseResul
                 let (f1, t1) = m[k];
                 slope = (t1 - t0) / (f1 - f0);
                 n = t0 + (n - f0) * slope;
-                // at a knot either neighbouring segment may have been used
-                if k + 1 < m.len() && (n - t1).abs() < 1e-12 {
+                // the 16.16 / 2.14 roundings of the library may carry a value that lies within a
+                // unit of a knot into the neighbouring segment: the tolerance follows the
+                // steepest of the segment and its two neighbours
+                if k + 1 < m.len() {
                     slope = slope.max((m[k + 1].1 - t1) / (m[k + 1].0 - f1));
+                }
+                if k >= 2 {
+                    slope = slope.max((t0 - m[k - 2].1) / (f0 - m[k - 2].0));
                 }
             }
         }
